@@ -12,8 +12,8 @@ a = sys.argv[3:]
 if "--features" in a: feat = a[a.index("--features") + 1]
 if "--toolchain" in a: tc = a[a.index("--toolchain") + 1]
 rel = "--release" in a   # the demonstration needs an optimised build (the existing suite is still run as prescribed, in debug)
-W = "/tmp/confirm_wt"
-TGT = "/tmp/confirm_target"
+W = os.environ.get("CONFIRM_WT", "/tmp/confirm_wt")
+TGT = os.environ.get("CONFIRM_TARGET", "/tmp/confirm_target")
 env = dict(os.environ, CARGO_TARGET_DIR=TGT, CARGO_NET_OFFLINE="true")
 subprocess.run(["git", "-C", "/repo", "worktree", "remove", "--force", W], capture_output=True)
 subprocess.run(["git", "-C", "/repo", "worktree", "prune"], capture_output=True)
